@@ -16,6 +16,7 @@ import (
 	"io"
 	"os"
 	"os/exec"
+	"path/filepath"
 	"runtime"
 	"sort"
 	"strings"
@@ -28,6 +29,7 @@ import (
 	"github.com/influxdata/influxdb/v2/pkg/verifhook"
 	"github.com/influxdata/influxdb/v2/toml"
 	"github.com/influxdata/influxdb/v2/tsdb"
+	"github.com/influxdata/influxdb/v2/tsdb/engine/tsm1"
 	"go.uber.org/zap"
 	"go.uber.org/zap/zapcore"
 	"pgregory.net/rapid"
@@ -114,7 +116,7 @@ type run struct {
 	winMu                       sync.Mutex
 	windows                     [][2]int64
 	snapCommits, compactCommits atomic.Int64
-	hung                        bool
+	hung, slow                  bool
 	ackMu                       sync.Mutex
 	acked                       []map[int64]int64 // per overwriting writer: ts -> latest acknowledged version (online diagnostics)
 	panics                      atomic.Int64
@@ -165,11 +167,10 @@ func runWorkload(t *rapid.T, w workload) *run {
 		t.Fatalf("scratch: %v", err)
 	}
 	var logbuf safeBuf
-	var logger *zap.Logger
-	if os.Getenv("VERIF_C39_LOG") != "" {
-		enc := zapcore.NewConsoleEncoder(zap.NewDevelopmentEncoderConfig())
-		logger = zap.New(zapcore.NewCore(enc, zapcore.AddSync(&logbuf), zapcore.InfoLevel))
-	}
+	// the engine's log is always kept: schedule-dependent failures cannot be replayed, the log and
+	// the post-mortem of the files are what a report can carry
+	enc := zapcore.NewConsoleEncoder(zap.NewDevelopmentEncoderConfig())
+	logger := zap.New(zapcore.NewCore(enc, zapcore.AddSync(&logbuf), zapcore.InfoLevel))
 	f := &fix.ShardFix{Root: dir, Background: true, Logger: logger, Tweak: func(o *tsdb.EngineOptions) {
 		o.Config.CacheSnapshotWriteColdDuration = toml.Duration(150 * time.Millisecond)
 		o.Config.CompactFullWriteColdDuration = toml.Duration(400 * time.Millisecond)
@@ -427,15 +428,30 @@ func runWorkload(t *rapid.T, w workload) *run {
 	}
 	done := make(chan struct{})
 	go func() { wg.Wait(); close(done) }()
-	select {
-	case <-done:
-	case <-time.After(90 * time.Second):
-		buf := make([]byte, 1<<22)
-		n := runtime.Stack(buf, true)
-		dump := fmt.Sprintf("/tmp/c39-watchdog-%d.txt", time.Now().UnixNano())
-		_ = os.WriteFile(dump, buf[:n], 0o644)
-		fmt.Fprintf(os.Stderr, "C39 WATCHDOG: workload did not finish within 90s; goroutine dump written to %s\nworkload: %+v\n", dump, w)
-		r.hung = true
+	// Watchdog on PROGRESS, not on duration: every operation stamps the logical clock when it is
+	// invoked and when it returns; a workload is hung when no stamp was taken for 60 s. A workload
+	// that keeps making progress on a busy machine is waited for (up to 15 min, then inconclusive).
+	last, lastChange, start := r.clock.Load(), time.Now(), time.Now()
+wait:
+	for {
+		select {
+		case <-done:
+			break wait
+		case <-time.After(5 * time.Second):
+		}
+		if now := r.clock.Load(); now != last {
+			last, lastChange = now, time.Now()
+		}
+		stalled := time.Since(lastChange) > 60*time.Second
+		if stalled || time.Since(start) > 15*time.Minute {
+			buf := make([]byte, 1<<22)
+			n := runtime.Stack(buf, true)
+			dump := fmt.Sprintf("/tmp/c39-watchdog-%d.txt", time.Now().UnixNano())
+			_ = os.WriteFile(dump, buf[:n], 0o644)
+			fmt.Fprintf(os.Stderr, "C39 WATCHDOG: stalled=%v after %s; goroutine dump written to %s\nworkload: %+v\n", stalled, time.Since(start).Round(time.Second), dump, w)
+			r.hung, r.slow = stalled, !stalled
+			break wait
+		}
 	}
 	return r
 }
@@ -478,6 +494,65 @@ func (r *run) diagnoseMissing(series string, before map[int64]int64, got []model
 		return sb.String()
 	}
 	return ""
+}
+
+// postMortem describes, for a writer series whose final state is wrong, where every version of
+// the timestamps lives (TSM files in name order, tombstones, cache), the stamped history of the
+// writes / snapshots, and the tail of the engine log.
+func (r *run) postMortem(series string, wi int) string {
+	var sb strings.Builder
+	key := []byte(series + "#!~#fi")
+	files, _ := filepath.Glob(filepath.Join(r.f.DataDir(), "*"))
+	sort.Strings(files)
+	for _, fn := range files {
+		st, _ := os.Stat(fn)
+		if st == nil {
+			continue
+		}
+		fmt.Fprintf(&sb, "file %s %d bytes", filepath.Base(fn), st.Size())
+		if strings.HasSuffix(fn, ".tsm") {
+			if fd, err := os.Open(fn); err == nil {
+				if tr, err := tsm1.NewTSMReader(fd); err == nil {
+					vs, err := tr.ReadAll(key)
+					fmt.Fprintf(&sb, " key values (err=%v):", err)
+					for _, v := range vs {
+						fmt.Fprintf(&sb, " %d=%v", v.UnixNano(), v.Value())
+					}
+					fmt.Fprintf(&sb, " tombstones=%v", tr.TombstoneRange(key))
+					tr.Close()
+				} else {
+					fd.Close()
+				}
+			}
+		}
+		sb.WriteString("\n")
+	}
+	if e, err := r.f.Engine(); err == nil {
+		fmt.Fprintf(&sb, "cache after reopen:")
+		for _, v := range e.Cache.Values(key) {
+			fmt.Fprintf(&sb, " %d=%v", v.UnixNano(), v.Value())
+		}
+		sb.WriteString("\n")
+	}
+	wal, _ := filepath.Glob(filepath.Join(r.f.WALDir(), "*"))
+	fmt.Fprintf(&sb, "wal files: %v\n", wal)
+	fmt.Fprintf(&sb, "writes of this series (inv,resp: points):")
+	for _, w := range r.wops[wi] {
+		fmt.Fprintf(&sb, " [%d,%d:", w.inv, w.resp)
+		for ts, v := range w.pts {
+			fmt.Fprintf(&sb, " %d=%d", ts*10, v)
+		}
+		sb.WriteString("]")
+	}
+	r.winMu.Lock()
+	fmt.Fprintf(&sb, "\nsnapshot windows (begin,end stamps): %v\n", r.windows)
+	r.winMu.Unlock()
+	lg := r.logbuf.String()
+	if len(lg) > 30000 {
+		lg = lg[len(lg)-30000:]
+	}
+	fmt.Fprintf(&sb, "engine log (tail):\n%s", lg)
+	return sb.String()
 }
 
 // ---- oracle ---------------------------------------------------------------------------------
@@ -782,6 +857,7 @@ func (r *run) verify() {
 				if os.Getenv("VERIF_C39_LOG") != "" {
 					os.WriteFile(os.Getenv("VERIF_C39_LOG"), []byte(r.logbuf.String()), 0o644)
 				}
+				o.diag = r.postMortem(writerSeries(i), i)
 				fail("inconsistent-final-state", msg, o)
 			}
 		}
@@ -862,6 +938,10 @@ func TestPropConcurrentWorkload(t *testing.T) {
 			w.CloseMidRun = strings.Contains(force, "close")
 		}
 		r := runWorkload(t, w)
+		if r.slow {
+			rec.Inconclusive("a workload was still making progress after 15 minutes (machine too busy); not judged")
+			return
+		}
 		if r.hung {
 			// A hang is reported as a violation only if it reproduces: the same workload is run
 			// twice more (schedules differ, so this is a heuristic in the cautious direction).
@@ -875,9 +955,9 @@ func TestPropConcurrentWorkload(t *testing.T) {
 				}
 			}
 			if again == 2 {
-				rec.Fail(t, "TestPropConcurrentWorkload", "hang", fmt.Sprintf("workload did not finish within 90 s in 3 of 3 executions (goroutine dumps under /tmp/c39-watchdog-*.txt): %+v", w), w)
+				rec.Fail(t, "TestPropConcurrentWorkload", "hang", fmt.Sprintf("no operation of the workload started or returned for 60 s in 3 of 3 executions (goroutine dumps under /tmp/c39-watchdog-*.txt): %+v", w), w)
 			}
-			rec.Inconclusive(fmt.Sprintf("a workload did not finish within 90 s once and finished on re-execution (%d of 2 re-executions hung)", again))
+			rec.Inconclusive(fmt.Sprintf("a workload stalled for 60 s once and finished on re-execution (%d of 2 re-executions hung)", again))
 			return
 		}
 		defer os.RemoveAll(r.f.Root)
@@ -1035,3 +1115,113 @@ func TestKnown_transient_stale_read(t *testing.T) {
 }
 
 var _ = sort.Ints
+
+const zombieKey = "compactions-enabled-on-closed-engine"
+
+// Store.WriteToShard re-enables compactions of an idle shard (Shard.SetCompactionsEnabled(true))
+// after it has fetched the shard and its engine without holding a lock across the call. If the
+// shard is closed in between, Engine.SetCompactionsEnabled(true) runs on the CLOSED engine and
+// starts its cache-snapshot and compaction goroutines again: the closed engine keeps writing TSM
+// files into the shard directory and removing WAL segments, also after the shard was re-opened
+// (found by the concurrent workloads: a re-opened shard served a state that lacked acknowledged
+// writes, its WAL segments had been removed by the old engine). The same happens when a delete
+// that is still running re-enables level compactions after Close (enableLevelCompactions(true)).
+// Reproducer: the engine call of the racing writer is made directly after Close returned.
+func TestKnown_compactions_enabled_on_closed_engine(t *testing.T) {
+	dir, err := scratch.Dir("c39-")
+	if err != nil {
+		t.Fatal(err)
+	}
+	defer os.RemoveAll(dir)
+	f := &fix.ShardFix{Root: dir, Background: true, Tweak: func(o *tsdb.EngineOptions) {
+		o.Config.CacheSnapshotWriteColdDuration = toml.Duration(100 * time.Millisecond)
+	}}
+	if err := f.Open(); err != nil {
+		t.Fatal(err)
+	}
+	if err := f.Store.WriteToShard(context.Background(), fix.ShardID, []models.Point{point(writerSeries(0), 10, 1)}); err != nil {
+		t.Fatal(err)
+	}
+	e, err := f.Engine()
+	if err != nil {
+		t.Fatal(err)
+	}
+	walBefore, _ := filepath.Glob(filepath.Join(f.WALDir(), "*.wal"))
+	if err := f.Store.Close(); err != nil {
+		t.Fatal(err)
+	}
+	tsmAtClose := len(f.TSMFiles())
+	e.SetCompactionsEnabled(true) // what the writer that raced with Close does next
+	deadline := time.Now().Add(3 * time.Second)
+	reproduced := false
+	var detail string
+	for time.Now().Before(deadline) && !reproduced {
+		time.Sleep(200 * time.Millisecond)
+		walNow, _ := filepath.Glob(filepath.Join(f.WALDir(), "*.wal"))
+		if n := len(f.TSMFiles()); n > tsmAtClose || len(walNow) < len(walBefore) {
+			reproduced = true
+			detail = fmt.Sprintf("after Store.Close() returned: %d TSM files and WAL segments %v; %s after Engine.SetCompactionsEnabled(true) on the closed engine: %d TSM files, WAL segments %v — the closed engine snapshotted its cache into the shard directory and removed the WAL", tsmAtClose, base(walBefore), time.Since(deadline.Add(-3*time.Second)).Round(100*time.Millisecond), n, base(walNow))
+		}
+	}
+	e.SetCompactionsEnabled(false)
+	rec.Known(t, "TestKnown_compactions_enabled_on_closed_engine", zombieKey, reproduced, detail, nil)
+}
+
+func base(paths []string) []string {
+	out := make([]string, len(paths))
+	for i, p := range paths {
+		out[i] = filepath.Base(p)
+	}
+	return out
+}
+
+const staleSetKey = "stale-series-id-set-cached-during-series-creation"
+
+// tsi1.Index.TagValueSeriesIDIterator reads the series id set of a tag value from the partitions
+// and puts it into the tag value cache afterwards; a series created in between updates only sets
+// that are cached already. The stale set (without the new series) is then served to every index
+// lookup by that tag value: the acknowledged series is invisible to InfluxQL / storage reads
+// with a tag predicate until the cache entry is evicted. Found by the concurrent workloads
+// (early reads of a writer's series returning nothing); here a new series is created per
+// round while two readers query its tag value.
+func TestKnown_stale_series_id_set_cached_during_series_creation(t *testing.T) {
+	dir, err := scratch.Dir("c39-")
+	if err != nil {
+		t.Fatal(err)
+	}
+	defer os.RemoveAll(dir)
+	f := &fix.ShardFix{Root: dir, Background: true}
+	if err := f.Open(); err != nil {
+		t.Fatal(err)
+	}
+	defer f.Close()
+	reproduced := false
+	var detail string
+	for k := 0; k < 500 && !reproduced; k++ {
+		s := fmt.Sprintf("m0,host=n%d", k)
+		var stop atomic.Bool
+		var wg sync.WaitGroup
+		for r := 0; r < 2; r++ {
+			wg.Add(1)
+			go func() {
+				defer wg.Done()
+				for !stop.Load() {
+					f.ReadInfluxQL(s, "fi", model.Integer, -1000, 1000, true)
+				}
+			}()
+		}
+		if err := f.Store.WriteToShard(context.Background(), fix.ShardID, []models.Point{point(s, 10, 1)}); err != nil {
+			t.Fatal(err)
+		}
+		stop.Store(true)
+		wg.Wait()
+		got, err := f.ReadInfluxQL(s, "fi", model.Integer, -1000, 1000, true)
+		if err == nil && len(got) == 0 {
+			cur, _ := f.Read(s, "fi", -1000, 1000, true)
+			again, _ := f.ReadInfluxQL(s, "fi", model.Integer, -1000, 1000, true)
+			reproduced = true
+			detail = fmt.Sprintf("round %d: the write creating series %s was acknowledged while two readers queried host=n%d; afterwards (no concurrency) SELECT fi WHERE host='n%d' returns %d points, again %d points, the cursor read by series key returns %d", k, s, k, k, len(got), len(again), len(cur))
+		}
+	}
+	rec.Known(t, "TestKnown_stale_series_id_set_cached_during_series_creation", staleSetKey, reproduced, detail, nil)
+}
